@@ -15,7 +15,20 @@ def run(ck):
         hs.append(H('c06_table_n1', cap=900, meaning='n<=1, same assertions'))
     else:
         hs += [H('c06_table_n3', cap=7200, meaning='n<=3'), H('c06_table_leap1_n2', cap=7200, required=False, meaning='n<=2 with one leap-second record')]
-    kprop.run_harnesses(ck, hs, on_fail=lambda B, h: kprop.replay_search_failure(ck, B, h, int(re.search(r'_n(\d)', h.name).group(1))))
+    if not quick:
+        hs.append(H('c06_rule_abstract', cap=9000, required=False, meaning='DST-rule zones, ALL years and ALL rules: real search and real forward lookup over abstract rule-day instants constrained by the contracts K1-K4 (discharged in C04), interleaving pattern assumed, known-finding role F2 (tie years) excluded: same assertions as the table harnesses'))
+
+    def on_fail(B, h):
+        if 'rule_abstract' in h.name:
+            import ruleref
+            r = ruleref.judge(common.Native())
+            if r:
+                ck.violation(f'{h.name}: {r[0]}', dict(r[1], kind='rule-corpus'))
+            else:
+                ck.inconclusive.append(f'{h.name} FAILED ({h.failed_checks[:3]}); no rule of the replay corpus reproduces a deviation natively (abstract counterexample not concretised)')
+        else:
+            kprop.replay_search_failure(ck, B, h, int(re.search(r'_n(\\d)', h.name).group(1)))
+    kprop.run_harnesses(ck, hs, on_fail=on_fail)
     f3_known_finding(ck)
     ck.functions += ['datetime::find::find_date_time', 'DateTime::find_n', 'FoundDateTimeListRefMut::{earliest,latest,data}', 'TimeZoneRef::find_local_time_type', 'TimeZoneRef::unix_leap_time_to_unix_time', 'DateTime::from_timespec_and_local']
     ck.explanation = 'Gap detection (two comparisons per transition in leap-count space) and push order are decided for every zone up to the bound and every civil time.'
